@@ -531,6 +531,38 @@ Proof.
 Qed.
 
 (* ---- at the level of the builder, every payload size ---- *)
+Theorem torn_open_gen_names fs name uhdr popt hdropt cb l c :
+  let header := params_to_text BSgen.Consts.version (N.of_nat p) ++ uhdr in
+  wf_series p l -> Forall (nm_sec p) (secs_of l) -> c <= length (encode p l) ->
+  (len header <= 65535)%N -> (len (encode p l) < 2^64)%N -> (N.of_nat p < 2^64)%N ->
+  fs_get fs (name ++ ext_data) = Some (outer header ++ firstn c (encode p l)) ->
+  index_state fs name (sections p (encode p l)) ->
+  (popt = None \/ popt = Some (N.of_nat p)) ->
+  match hdropt with HdrIs e => e = uhdr | HdrAny => True end ->
+  exists fs' s k, builder_open name popt hdropt [] cb fs = (fs', Ok (s, uhdr))
+    /\ k <= length l /\ length (encode p (firstn k l)) <= c /\ (k < length l -> c < length (encode p (firstn (S k) l)))
+    /\ RepH fs' s p (outer header) (outer []) (firstn k l) /\ s_cb s = cb
+    /\ (forall g, g <> name ++ ext_data -> g <> name ++ ext_index -> g <> name ++ ext_part -> fs_get fs' g = fs_get fs g)
+    /\ of_name (d_file (s_data s)) = name ++ ext_data /\ of_name (ix_file (d_index (s_data s))) = name ++ ext_index.
+Proof.
+  intros header W NM Hc Hh H64 Hp GD IS Hopt HO.
+  destruct (fwh_open_ok fs (name ++ ext_data) header (firstn c (encode p l)) Hh GD) as [FO _].
+  destruct (data_open_torn_gen fs name header cb l c W NM Hc Hh H64 GD IS) as (fs' & d & k & DO & Hk & LE & MX & RD & N1 & N2 & OT).
+  assert (Wk : wf_series p (firstn k l)) by (apply wf_firstn'; exact W).
+  exists fs'. eexists. exists k. split; [|split; [exact Hk|split; [exact LE|split; [exact MX|split; [|split; [|split; [exact OT|split]]]]]]].
+  - unfold builder_open, series_open. erewrite mbind_ok.
+    2:{ erewrite mbind_ok by exact FO. cbv iota beta.
+        unfold lift at 1. erewrite mbind_ok by (unfold header; rewrite (header_roundtrip (N.of_nat p) uhdr popt Hp Hopt); reflexivity). cbv iota beta.
+        rewrite Nat2N.id. erewrite mbind_ok by (apply mcatch_ok; exact DO).
+        unfold lift at 1. erewrite mbind_ok by (rewrite (data_range_ok p fs' d _ _ (firstn k l) Wk RD); reflexivity).
+        erewrite mbind_ok by (apply mcatch_ok; reflexivity). reflexivity. }
+    cbv iota beta. destruct hdropt as [|e]; [reflexivity|]. subst e. rewrite bytes_eqb_refl. reflexivity.
+  - constructor; cbn [s_data s_down s_range]; [exact RD|exact Wk|reflexivity|reflexivity].
+  - reflexivity.
+  - exact N1.
+  - exact N2.
+Qed.
+
 Theorem torn_open_gen fs name uhdr popt hdropt cb l c :
   let header := params_to_text BSgen.Consts.version (N.of_nat p) ++ uhdr in
   wf_series p l -> Forall (nm_sec p) (secs_of l) -> c <= length (encode p l) ->
@@ -545,19 +577,9 @@ Theorem torn_open_gen fs name uhdr popt hdropt cb l c :
     /\ (forall g, g <> name ++ ext_data -> g <> name ++ ext_index -> g <> name ++ ext_part -> fs_get fs' g = fs_get fs g).
 Proof.
   intros header W NM Hc Hh H64 Hp GD IS Hopt HO.
-  destruct (fwh_open_ok fs (name ++ ext_data) header (firstn c (encode p l)) Hh GD) as [FO _].
-  destruct (data_open_torn_gen fs name header cb l c W NM Hc Hh H64 GD IS) as (fs' & d & k & DO & Hk & LE & MX & RD & N1 & N2 & OT).
-  assert (Wk : wf_series p (firstn k l)) by (apply wf_firstn'; exact W).
-  exists fs'. eexists. exists k. split; [|split; [exact Hk|split; [exact LE|split; [exact MX|split; [|split; [|exact OT]]]]]].
-  - unfold builder_open, series_open. erewrite mbind_ok.
-    2:{ erewrite mbind_ok by exact FO. cbv iota beta.
-        unfold lift at 1. erewrite mbind_ok by (unfold header; rewrite (header_roundtrip (N.of_nat p) uhdr popt Hp Hopt); reflexivity). cbv iota beta.
-        rewrite Nat2N.id. erewrite mbind_ok by (apply mcatch_ok; exact DO).
-        unfold lift at 1. erewrite mbind_ok by (rewrite (data_range_ok p fs' d _ _ (firstn k l) Wk RD); reflexivity).
-        erewrite mbind_ok by (apply mcatch_ok; reflexivity). reflexivity. }
-    cbv iota beta. destruct hdropt as [|e]; [reflexivity|]. subst e. rewrite bytes_eqb_refl. reflexivity.
-  - constructor; cbn [s_data s_down s_range]; [exact RD|exact Wk|reflexivity|reflexivity].
-  - reflexivity.
+  destruct (torn_open_gen_names fs name uhdr popt hdropt cb l c W NM Hc Hh H64 Hp GD IS Hopt HO)
+    as (fs' & s & k & E & Hk & LE & MX & R & CB & OT & _).
+  exists fs', s, k. repeat (split; [assumption|]). exact OT.
 Qed.
 
 (* C04 for every payload size under the one condition *)
